@@ -448,6 +448,11 @@ func (g *gen) iface(name string, shared *embed, extra []string) (string, Iface) 
 		fmt.Fprintf(&b, "\t%s%s\n", mn, g.signature())
 		out.Methods++
 	}
+	if len(g.tparams) > 0 && !taken["Pick"] {
+		// a generic interface always has a method whose single result is a bare type parameter
+		fmt.Fprintf(&b, "\tPick(k %s, n int) %s\n", g.tparams[len(g.tparams)-1], g.tparams[0])
+		out.Methods++
+	}
 	for _, e := range extra {
 		fmt.Fprintf(&b, "\t%s\n", e)
 		out.Methods++
@@ -466,6 +471,9 @@ func Generate(spec Spec) *Corpus {
 		p := &Pkg{ID: fmt.Sprintf("p%02d", pi), Name: fmt.Sprintf("p%02d", pi)}
 		var body strings.Builder
 		ni := 1 + tp.Int(3)
+		if tp.Int(6) == 0 {
+			ni = 4 + tp.Int(2) // now and then many interfaces in one moq run
+		}
 		// interfaces of one package may share an embedded interface (the same
 		// method objects reach several mocks of one moq run) ...
 		var shared *embed
@@ -487,7 +495,7 @@ func Generate(spec Spec) *Corpus {
 		for k := 0; k < ni; k++ {
 			var extra []string
 			if siblings != nil {
-				extra = siblings[k]
+				extra = siblings[k%len(siblings)]
 			}
 			src, ifc := g.iface(fmt.Sprintf("Iface%02d%c", pi, 'A'+k), shared, extra)
 			body.WriteString("\n" + src)
